@@ -442,6 +442,7 @@ fn run_race<BS: BitmapSlice>(mk: impl Fn(u32) -> Cont<BS>) -> RunInfo {
         };
     }
     let log = RefCell::new(Vec::<String>::new());
+    let knames = RefCell::new(Vec::<&'static str>::new());
     let (mut ok_ops, mut rejected) = (0u32, 0u32);
     let copy_pages = |words: &[u64], dest: &mut Vec<u8>| -> usize {
         let now = raw_read(ptr, size);
@@ -457,7 +458,7 @@ fn run_race<BS: BitmapSlice>(mk: impl Fn(u32) -> Cont<BS>) -> RunInfo {
     };
     {
         let conts_ref = &mut conts;
-        let (log2, dest2, harv2, bm2) = (&log, &dest, &harvests, &bitmap);
+        let (log2, dest2, harv2, bm2, kn2) = (&log, &dest, &harvests, &bitmap, &knames);
         let (ok2, rej2) = (&mut ok_ops, &mut rejected);
         let prog2 = &prog;
         let wbody: Box<dyn FnOnce() + '_> = Box::new(move || {
@@ -482,10 +483,12 @@ fn run_race<BS: BitmapSlice>(mk: impl Fn(u32) -> Cont<BS>) -> RunInfo {
                         });
                         let r = with_allowed(conts_ref[0].rid, &[(cont_base_in_range(&conts_ref[0]) + spec.off, cont_base_in_range(&conts_ref[0]) + spec.off + spec.len)], || if *exact { flat(catch(|| view.read_exact_volatile_from(0, &mut f, n.min(spec.len))), obs_unit) } else { flat(catch(|| view.read_volatile_from(0, &mut f, n)), obs_count) });
                         log2.borrow_mut().push(format!("writer: view{:?}(+{},{}) {}(File, {}) -> {:?}", spec.steps, spec.off, spec.len, if *exact { "read_exact_volatile_from" } else { "read_volatile_from" }, n, r));
+                        kn2.borrow_mut().push(if *exact { "read_exact_volatile_from(File)" } else { "read_volatile_from(File)" });
                         *ok2 += 1;
                     }
                 } else {
-                    let (desc, _) = MEM.one_op(conts_ref, 0, spec, *kind, step as u32 + 1, step, ok2, rej2);
+                    let (desc, kname) = MEM.one_op(conts_ref, 0, spec, *kind, step as u32 + 1, step, ok2, rej2);
+                    kn2.borrow_mut().push(kname);
                     log2.borrow_mut().push(format!("writer: view{:?}(+{},{}) {}", spec.steps, spec.off, spec.len, desc));
                 }
                 cx().op_end(step as u64, 0);
@@ -525,7 +528,7 @@ fn run_race<BS: BitmapSlice>(mk: impl Fn(u32) -> Cont<BS>) -> RunInfo {
     let d = dest.borrow();
     if let Some(i) = (0..size).find(|&i| now[i] != d[i]) {
         let line = log.borrow().join(" | ");
-        let kn = log.borrow().iter().find(|l| l.starts_with("writer")).map(|l| l.split_whitespace().nth(2).unwrap_or("").split('(').next().unwrap_or("").to_string()).unwrap_or_default();
+        let kn = knames.borrow().join(" + ");
         cx().violate("C05", "C05/stale-after-harvest", format!("{} racing with a harvest through {}", kn, flavour), format!("{}: byte {} of the container (page {}, page size {}, slice base offset {}) is {:#04x} but the copy assembled from the harvests holds {:#04x}: it changed after its page was last reported and is not reported dirty", line, i, (base_off + i) / ps, ps, base_off, now[i], d[i]));
     }
     drop(d);
@@ -684,7 +687,9 @@ fn run_mem<BS: BitmapSlice>(mk: impl Fn(u32) -> Cont<BS>, tracked: bool) -> RunI
                     }
                 }
                 let partial = PARTIAL.with(|p| p.get());
-                if after != want && !partial {
+                // a request that failed part-way owes marks only to C05, but even then no page that
+                // overlaps none of the bytes it wrote may become dirty
+                if after != want && (!partial || !after.is_subset(&want)) {
                     let extra: Vec<_> = after.difference(&want).collect();
                     if !extra.is_empty() {
                         cx().violate("C16", "C16/extra-mark", format!("{} through {} marked too much", kname, t.flavour), format!("step {} {}: container {} pages {:?} became dirty although the operation wrote only {:?} (page size {}, slice base offset {})", step, line, k, extra, wrote, t.ps, t.base_off));
@@ -891,7 +896,28 @@ impl Mem {
                 } else {
                     let model_before = conts[ci].model.clone();
                     let (lo, hi) = (voff + addr, voff + addr + nbytes);
+                    let bad_index = sub <= 1 && cx().a(6) == 0;
                     match sub {
+                        0 | 1 if bad_index => {
+                            // an element index at or past the end names no element: the call must not
+                            // return (it panics by contract), let alone touch the bytes behind the array
+                            let bad = n + [0usize, 0, 0, 1, 9][cx().a(5) as usize];
+                            let bytes: Vec<u8> = (0..sz).map(|i| pat(stamp, i)).collect();
+                            let form = cx().a(3);
+                            j.kind = ["array.store(index past the end)", "array.load(index past the end)", "array.ref_at(index past the end)"][form as usize];
+                            j.desc = format!("get_array_ref::<{}>({}, {}).{} index {}", TYPE_NAMES[ti], addr, n, ["store", "load", "ref_at"][form as usize], bad);
+                            let got = with_allowed(rid, &[], || {
+                                with_type!(ti, T => flat(catch(|| view.get_array_ref::<T>(addr, n).map(|a| match form {
+                                    0 => a.store(bad, mk::<T>(&bytes)),
+                                    1 => drop(a.load(bad)),
+                                    _ => drop(a.ref_at(bad).len()),
+                                })), obs_unit))
+                            });
+                            match got {
+                                Obs::Panic(_) => *rejected += 1,
+                                other => cx().violate("C04", "C04/index", format!("{} accepted", j.kind), format!("step {} {}: returned {:?}; the index names no element of the array", step, j.desc, other)),
+                            }
+                        }
                         0 | 1 if n == 0 => {
                             // indexing an empty array panics by contract; nothing to do
                             let got = with_allowed(rid, &[], || with_type!(ti, T => flat(catch(|| view.get_array_ref::<T>(addr, n).map(|a| a.len())), obs_count)));
@@ -1324,35 +1350,72 @@ impl Mem {
             }
             // ---- in-memory stream adapters ---------------------------------------------------------
             21 => {
-                j.kind = "read_volatile_from(&[u8])";
+                // source: the crate's &[u8] / Cursor adapters (exact forms overridden) or a real file
+                // (default exact loop; it may run dry after some bytes have landed)
+                let srck = cx().a(3);
+                j.kind = ["read_volatile_from(&[u8])", "read_volatile_from(Cursor)", "read_volatile_from(File)"][srck as usize];
                 let addr = gen_off(vlen).min(vlen.saturating_sub(1));
                 let count = gen_len(vlen);
                 let srclen = match cx().a(3) { 0 => count, 1 => count + 3, _ => cx().a(count as u32 + 1) as usize };
                 let src: Vec<u8> = (0..srclen).map(|i| pat(stamp, i)).collect();
                 let exact = cx().a(2) == 0;
-                j.desc = format!("{}({}, &[u8;{}], {})", if exact { "read_exact_volatile_from" } else { "read_volatile_from" }, addr, srclen, count);
+                j.desc = format!("{}({}, {} of {} bytes, {})", if exact { "read_exact_volatile_from" } else { "read_volatile_from" }, addr, ["&[u8]", "Cursor<&[u8]>", "File"][srck as usize], srclen, count);
                 if vlen == 0 || srclen == 0 {
                     return (format!("{} skipped (empty)", j.desc), j.kind);
                 }
                 let room = vlen - addr;
                 let mut s = &src[..];
+                let mut cur = std::io::Cursor::new(&src[..]);
+                let mut file = in_mode(Mode::Setup, || {
+                    let f = crate::gmworld::memfd(0);
+                    if srck == 2 {
+                        use std::os::fd::AsRawFd;
+                        // SAFETY: our own descriptor and buffer.
+                        unsafe {
+                            libc::write(f.as_raw_fd(), src.as_ptr() as *const libc::c_void, src.len());
+                            libc::lseek(f.as_raw_fd(), 0, libc::SEEK_SET);
+                        }
+                    }
+                    f
+                });
                 if exact {
                     let fits = count <= room;
-                    let k = if fits && count <= srclen { count } else { 0 };
-                    let got = with_allowed(rid, &[(abs(addr), abs(addr) + k)], || flat(catch(|| view.read_exact_volatile_from(addr, &mut s, count)), obs_unit));
+                    // the adapters refuse up front; the default loop stores what it got before noticing the end
+                    let k = if !fits { 0 } else if count <= srclen { count } else if srck == 2 { srclen } else { 0 };
+                    let got = with_allowed(rid, &[(abs(addr), abs(addr) + k)], || match srck {
+                        0 => flat(catch(|| view.read_exact_volatile_from(addr, &mut s, count)), obs_unit),
+                        1 => flat(catch(|| view.read_exact_volatile_from(addr, &mut cur, count)), obs_unit),
+                        _ => flat(catch(|| view.read_exact_volatile_from(addr, &mut file, count)), obs_unit),
+                    });
                     let exp = if !fits { Obs::Oob } else if count > srclen { Obs::Io(ErrorKind::UnexpectedEof) } else { Obs::Unit };
                     conts[ci].model[voff + addr..voff + addr + k].copy_from_slice(&src[..k]);
                     note_w(ci, voff + addr, voff + addr + k);
+                    if fits && count > srclen {
+                        PARTIAL.with(|p| p.set(true));
+                    }
                     j.expect(&got, &exp);
                     tally!(got);
                 } else {
                     let k = count.min(room).min(srclen);
-                    let got = with_allowed(rid, &[(abs(addr), abs(addr) + k)], || flat(catch(|| view.read_volatile_from(addr, &mut s, count)), obs_count));
+                    let got = with_allowed(rid, &[(abs(addr), abs(addr) + k)], || match srck {
+                        0 => flat(catch(|| view.read_volatile_from(addr, &mut s, count)), obs_count),
+                        1 => flat(catch(|| view.read_volatile_from(addr, &mut cur, count)), obs_count),
+                        _ => flat(catch(|| view.read_volatile_from(addr, &mut file, count)), obs_count),
+                    });
                     conts[ci].model[voff + addr..voff + addr + k].copy_from_slice(&src[..k]);
                     note_w(ci, voff + addr, voff + addr + k);
                     j.expect(&got, &Obs::Count(k));
-                    if s.len() != srclen - k {
-                        cx().violate("C04", "C04/data", "stream position".into(), format!("step {} {}: source advanced by {} instead of {}", step, j.desc, srclen - s.len(), k));
+                    let advanced = match srck {
+                        0 => srclen - s.len(),
+                        1 => cur.position() as usize,
+                        _ => {
+                            use std::os::fd::AsRawFd;
+                            // SAFETY: our own descriptor.
+                            (unsafe { libc::lseek(file.as_raw_fd(), 0, libc::SEEK_CUR) }) as usize
+                        }
+                    };
+                    if advanced != k {
+                        cx().violate("C04", "C04/data", "stream position".into(), format!("step {} {}: source advanced by {} instead of {}", step, j.desc, advanced, k));
                     }
                     tally!(got);
                 }
